@@ -690,7 +690,12 @@ def run_cache_half(rep, rng, cov, broken):
     import c05
     import replica_gen as RG
     tier = rep.tier
-    po = common.proof_obligations(CACHE_PROP_FILES)
+    # translator: on_commit / on_timeout cache bookkeeping (views insert, retain, quorum test) regenerated from the
+    # source and proved equal to Model/Replica.v (Properties/C05Gen3.v)
+    import rust2coq
+    translator, gen_files = rust2coq.step(rust2coq.REPLICA_STEP, rust2coq.REPLICA_PROPS, broken)
+    cov["translator"] = translator
+    po = common.proof_obligations(CACHE_PROP_FILES + gen_files)
     if not po["ok"]:
         broken.append("Coq obligations of Properties/C16Caches.v: " + (po["log_tail"] or str(po["hygiene_problems"] or po["bad_axioms"])))
     opts = {"rounds": 3 if tier == "quick" else 6, "crash": False, "extreme": False,
